@@ -140,6 +140,10 @@ def r2_consumers(ctx, chk, rule="C13.2"):
                                 seeded = True
                 if seeded:
                     chk.ok(rule, f.where(), "%s.%s: `%s` only seeds a MIN/MAX fold with the value at the first element (order-insensitive)" % (cls, m, show(t)))
+                elif not _direct_in_result(k, t):
+                    # the value at a fixed position goes into a call / a loop / a fold that is not brought to normal form here (the seed of
+                    # `min([first, *keys])`, of a `reduce`, of a helper): whether the result depends on the order is not decided
+                    chk.undecided(rule, f.where(), "%s.%s reads `%s` and hands it to a computation that is not brought to a MIN/MAX fold seeded with the first element" % (cls, m, show(t)))
                 else:
                     chk.violation(rule, f.where(), "%s.%s reads `%s`: a positional access to the successor list that is not a fold seed" % (cls, m, show(t)),
                                   expected="no positional access", found=show(t), construct="%s.%s positional subscript" % (cls, m))
@@ -355,6 +359,33 @@ def _canary(ctx, chk):
 
 def _under_state_index(t):
     return False
+
+
+def _direct_in_result(k, t):
+    """The positional value reaches the returned value through nothing but selections and arithmetic (no call, loop result or
+    helper in between): the result is read off the successor at that fixed position."""
+    def walk(x):
+        if x == t:
+            return True
+        if not isinstance(x, tuple) or not x or not isinstance(x[0], str):
+            return False
+        if x[0] in ("call", "mcall", "apply", "res", "compr", "acc"):
+            return False
+        return any(walk(y) for y in x[1:] if isinstance(y, tuple)) or any(walk(z) for y in x[1:] if isinstance(y, tuple) and y and not isinstance(y[0], str) for z in y if isinstance(z, tuple))
+    return walk(k.ret)
+
+
+def _only_inside(k, t, holders):
+    """Every occurrence of term t in the kernel's terms lies inside one of the holder terms."""
+    def count(x):
+        return sum(1 for y in C02._sub(x) if y == t)
+    total = count(k.ret) + sum(count(e) for e in k.sx.final.effects) + sum(count(u) for L in k.sx.loops.values() for u in L.update.values())
+    inside = 0
+    for root in [k.ret] + list(k.sx.final.effects) + [u for L in k.sx.loops.values() for u in L.update.values()]:
+        for y in C02._sub(root):
+            if y in holders:
+                inside += count(y)
+    return total > 0 and inside >= total
 
 
 def _slots(k, a):
